@@ -248,7 +248,7 @@ func c12RunStage(st *c12StageCase, db *fakes.ReaderDB) string {
 					break recv
 				}
 				delivered++
-			case <-time.After(3 * time.Second):
+			case <-time.After(c12Slow * 2 * time.Second):
 				return fmt.Sprintf("producer-stuck %d", delivered)
 			}
 		}
@@ -271,11 +271,22 @@ func c12RunStage(st *c12StageCase, db *fakes.ReaderDB) string {
 			}
 			return n
 		}
+		// "blocked" = after 500 ms every remaining goroutine of the request is parked in a wait that only another goroutine
+		// can end, twice in a row; goroutines that are merely late (busy machine) get up to 2 s (x the slow factor)
 		verdict := "final"
+		parkedTwice := 0
 		for t0 := time.Now(); pending() > 0; time.Sleep(2 * time.Millisecond) {
 			if time.Since(t0) > 500*time.Millisecond {
-				verdict = "blocked"
-				break
+				if n, parked := c12PendingStates(before); n > 0 && parked {
+					parkedTwice++
+				} else {
+					parkedTwice = 0
+				}
+				if parkedTwice >= 2 || time.Since(t0) > c12Slow*2*time.Second {
+					verdict = "blocked"
+					break
+				}
+				time.Sleep(50 * time.Millisecond)
 			}
 		}
 		if verdict == "blocked" {
@@ -284,7 +295,7 @@ func c12RunStage(st *c12StageCase, db *fakes.ReaderDB) string {
 				for range ch {
 				}
 			}()
-			for t0 := time.Now(); pending() > 0 && time.Since(t0) < 3*time.Second; time.Sleep(2 * time.Millisecond) {
+			for t0 := time.Now(); pending() > 0 && time.Since(t0) < c12Slow*10*time.Second; time.Sleep(2 * time.Millisecond) {
 			}
 		}
 		return fmt.Sprintf("%s %d", verdict, delivered)
@@ -790,15 +801,30 @@ func c12Stages(r *h.Result, rng *h.Rng, tier string) error {
 		if j.o == nil || j.o.Outcome == "hang" || j.o.Outcome == "memory" {
 			continue // already a violation; there is no answer to compare
 		}
-		impl, mod := j.o.StageOut, model[i]
+		mod := model[i]
 		if streams[i] == "status" || streams[i] == "status-prom" {
-			impl = fmt.Sprintf("%d", j.o.Status/100*100)
 			mod = strings.TrimSuffix(mod, "e") // a stream error keeps the 200 already sent
 		}
-		if streams[i] == "status-prom" && mod == "200" && impl == "500" {
-			impl = "200" // the model stops at the engine call: beyond it Prometheus' engine decides between 200 and 500
+		implOf := func(o *c12Outcome) string {
+			impl := o.StageOut
+			if streams[i] == "status" || streams[i] == "status-prom" {
+				impl = fmt.Sprintf("%d", o.Status/100*100)
+			}
+			if streams[i] == "status-prom" && mod == "200" && impl == "500" {
+				impl = "200" // the model stops at the engine call: beyond it Prometheus' engine decides between 200 and 500
+			}
+			return impl
 		}
+		impl := implOf(j.o)
 		r.Count("tie:" + streams[i] + ":" + strings.SplitN(mod, " ", 2)[0])
+		if impl != mod {
+			// some answers ("blocked", "producer-stuck") rest on a clock: a disagreement counts when the case ALONE, with 10x
+			// the time, disagrees again (a deterministic difference does; one caused by a busy machine does not)
+			if j2 := c12ConfirmSlow(j.cs, tier, 10); j2.cr == nil && j2.o != nil && j2.o.Outcome != "hang" && j2.o.Outcome != "memory" && implOf(j2.o) == mod {
+				r.Count("tie:disagreement-not-reproduced-alone-with-10x-time")
+				impl = mod
+			}
+		}
 		if impl != mod {
 			r.Disagree(streams[i], ops[i], impl, mod, j.cs)
 		}
